@@ -47,8 +47,10 @@ def main():
   ap.add_argument('--tier', default='quick')
   ap.add_argument('--only', type=int)
   ap.add_argument('--seed', default='0')
+  ap.add_argument('--src', default='/tmp/wt')
+  ap.add_argument('--offset', type=int, default=0, help='added to the change number in the kept directory name')
   a = ap.parse_args()
-  src = '/tmp/wt/%s/out' % a.prop
+  src = '%s/%s/out' % (a.src, a.prop)
   try:
     agent_meta = json.load(open(os.path.join(src, 'meta.json')))
   except Exception as e:
@@ -111,7 +113,7 @@ def main():
     finally:
       drop(tree)
     if rec.get('confirmed'):
-      dst = os.path.join(HERE, 'seeded', '%s-%d' % (a.prop, n))
+      dst = os.path.join(HERE, 'seeded', '%s-%d' % (a.prop, n + a.offset))
       os.makedirs(dst, exist_ok=True)
       shutil.copy(patch, os.path.join(dst, 'patch.diff'))
       if os.path.exists(dm):
